@@ -40,7 +40,6 @@ func c07Oracle(c c07Case, r *advResult, k *verifkit.Kit) error {
 	}
 	tl := func() string { return r.W.timeline() }
 	start, end := advEpochs(r)
-	_ = start
 	if !sc.NoStop && !r.Returned {
 		return verifkit.Violf("C07/run-does-not-return", "Run did not return within %v of the stop\n%s", time.Duration(sc.WaitNS), tl())
 	}
@@ -71,6 +70,24 @@ func c07Oracle(c c07Case, r *advResult, k *verifkit.Kit) error {
 		if _, ok := rd.In.Msg.(*ndp.RouterSolicitation); ok && rd.In.Err == nil && rd.In.HopLimit == ndp.HopLimit && !rd.In.From.IsUnspecified() {
 			src := rd.In.From.WithZone("").String()
 			rs[key{rd.Conn, src}] = append(rs[key{rd.Conn, src}], rd.At)
+		}
+	}
+	// ... and everything that was delivered to a connection is read, as long as the connection lives on for another
+	// second (the rules below start from what the listener read: a listener that stops reading must not pass them)
+	readsOn, sentOn := map[int]int{}, map[int]int{}
+	for _, rd := range r.Reads {
+		if rd.In.Err == nil {
+			readsOn[rd.Conn]++
+		}
+	}
+	for _, d := range r.Delivered {
+		if d.Ev.Kind == "readerr" {
+			continue
+		}
+		sentOn[d.Conn]++
+		if max(d.At, start[d.Conn])+time.Second < end[d.Conn] && sentOn[d.Conn] > readsOn[d.Conn] {
+			return verifkit.Violf("C07/message-never-read", "message %d delivered to connection %d at %v was never read (%d reads; the connection lived until %v)\n%s",
+				sentOn[d.Conn], d.Conn, d.At, readsOn[d.Conn], end[d.Conn], tl())
 		}
 	}
 	wr := map[key][]simWrite{}
@@ -194,7 +211,7 @@ func c07Oracle(c c07Case, r *advResult, k *verifkit.Kit) error {
 			recv[rd.In.Msg.Type().String()]++
 		}
 	}
-	for _, typ := range []ndp.Message{&ndp.RouterSolicitation{}, &ndp.RouterAdvertisement{}} {
+	for _, typ := range []ndp.Message{&ndp.RouterSolicitation{}, &ndp.RouterAdvertisement{}, &ndp.NeighborSolicitation{}, &ndp.NeighborAdvertisement{}} {
 		name := typ.Type().String()
 		if got := r.counter(serRecv, "interface=eth0,message="+name); got != recv[name] {
 			return verifkit.Violf("C07/counter-received", "messages_received_total{%s} = %v, %v validated messages were read\n%s", name, got, recv[name], tl())
